@@ -358,3 +358,136 @@ def rule_P2b(prog, fixture=False):
     res.stats["engines"] = [s["name"] for s in engines]
     res.stats["draw_sites"] = draws
     return res
+
+
+# =================================================================================================
+# P3 HANDLE-COPY: an object that is copied member-wise must not share mutable state with its copy  (C06, C09)
+def _through_field(n, fields):
+    """the smart-pointer member (name) whose *pointee* expression n denotes:  _d->x, (*_d).x, _d.get()->x, *_d;
+    None for the pointer object itself (_d, _d.reset())"""
+    x = n.strip_all() if n is not None else None
+    deref = False
+    for _ in range(8):
+        if x is None:
+            return None
+        if x.k == "CXXOperatorCallExpr" and x.op in ("->", "*") and len(x.c) >= 2:
+            x = x.c[1].strip_all()
+            deref = True
+            continue
+        if x.k == "UnaryOperator" and x.op == "*" and x.c:
+            x = x.c[0].strip_all()
+            continue
+        if x.k == "CXXMemberCallExpr" and x.callee and (x.callee.get("qn") or "").endswith("::get") and x.call_object() is not None:
+            x = x.call_object().strip_all()
+            deref = True
+            continue
+        if x.k == "MemberExpr" and x.decl and x.decl.get("k") == "field":
+            base = x.c[0].strip_all() if x.c else None
+            if (base is None or base.k == "CXXThisExpr") and x.decl.get("n") in fields:
+                return x.decl["n"] if deref else None
+            if base is not None:
+                x = base          # a member of the pointee:  _d->maflt
+                continue
+            return None
+        return None
+    return None
+
+
+def _user_copy_shares(prog, cls, fld):
+    """does a user-provided copy constructor / copy assignment of cls initialise or assign `fld` from the same member of its
+    argument (rhs._d), i.e. copy the pointer?"""
+    short = cls.rsplit("::", 1)[-1]
+    for f in prog.functions.values():
+        if f.cls != cls or f.get("implicit") or len(f.params) != 1:
+            continue
+        pt = f.params[0].get("t", "")
+        if not (f.params[0].get("ref") and re.search(r"(^|[\s:])%s\b" % re.escape(short), pt)):
+            continue
+        if not (f.kind in ("ctor", "copy_ctor") or f.name.endswith("operator=")):
+            continue
+        pn = f.params[0]["n"]
+
+        def from_rhs(e):
+            e = e.strip_all()
+            while e.k in ("CXXConstructExpr", "InitListExpr", "MaterializeTemporaryExpr", "CXXBindTemporaryExpr") and len(e.c) == 1:
+                e = e.c[0].strip_all()
+            if e.k == "MemberExpr" and e.decl and e.decl.get("n") == fld and e.c:
+                b = e.c[0].strip_all()
+                return b.k == "DeclRefExpr" and b.decl and b.decl.get("n") == pn
+            return False
+        for init in f.ctor_inits():
+            if init.get("member") == fld and init.c and from_rhs(init.c[0]):
+                return True
+        for n in f.walk():
+            if n.k in ("BinaryOperator", "CXXOperatorCallExpr") and n.op == "=":
+                kids = n.c if n.k == "BinaryOperator" else n.c[1:]
+                if len(kids) == 2:
+                    l = kids[0].strip_all()
+                    if l.k == "MemberExpr" and l.decl and l.decl.get("n") == fld and from_rhs(kids[1]):
+                        return True
+    return False
+
+
+def rule_P3(prog, fixture=False):
+    res = RuleResult("P3", "a class whose objects are copied member-wise (implicit or defaulted copy operations) and that keeps "
+                           "state behind a std::shared_ptr member never changes that state through the pointer: otherwise a copy and "
+                           "its original are two objects with one state - they influence one another, and using them from two "
+                           "threads is a data race")
+    n_cls = 0
+    for nm in sorted(prog.classes):
+        cj = prog.classes[nm]
+        if cj.get("inst") and not fixture:
+            pass
+        sp = {f["name"]: f for f in cj["fields"] if f["ctype"].startswith("std::shared_ptr<") or f["ctype"].startswith("const std::shared_ptr<")}
+        if not sp or cj["file"].endswith("coverage.cc"):
+            continue
+        n_cls += 1
+        where = "%s:%d" % (prog.rel(cj["file"]), cj["line"])
+        muts = {}            # field -> [(function, node, why)]
+        for f in prog.functions.values():
+            if f.cls != nm or f.get("implicit") or f.kind in ("ctor", "copy_ctor", "move_ctor", "dtor"):
+                continue
+            for n in f.walk():
+                fld, why = None, None
+                if n.k == "CXXMemberCallExpr" and n.callee and not n.callee.get("const") and not n.callee.get("static"):
+                    fld = _through_field(n.call_object(), sp)       # _d.reset(..) re-seats the pointer: not the pointee
+                    why = "calls the non-const %s on the shared object" % (n.callee.get("qn") or "?").rsplit("::", 1)[-1]
+                elif n.k in ("BinaryOperator", "CompoundAssignOperator") and n.op and n.op.endswith("=") and n.op not in ("==", "!=", "<=", ">=") and n.c:
+                    l = n.c[0].strip_all()
+                    if l.k == "MemberExpr" and l.c:
+                        fld = _through_field(l, sp)
+                        why = "assigns %s of the shared object" % l.text()
+                    elif l.k in ("CXXOperatorCallExpr", "UnaryOperator"):
+                        fld = _through_field(l, sp)
+                        why = "assigns the shared object (%s)" % l.text()
+                elif n.is_call() and n.callee and n.k not in ("CXXMemberCallExpr",):
+                    pm = n.callee.get("pm", [])
+                    for i, a in enumerate(n.call_args()):
+                        if i < len(pm) and pm[i] in ("ref", "ptr"):
+                            g = _through_field(a, sp)
+                            if g is not None:
+                                fld, why = g, "passes the shared object to %s by non-const reference" % (n.callee.get("qn") or "?")
+                if fld is not None:
+                    muts.setdefault(fld, []).append((f, n, why))
+        for fld in sorted(sp):
+            key = "P3:%s::%s" % (nm, fld)
+            what = "%s::%s (%s)" % (nm, fld, sp[fld]["type"])
+            extra = {"props": ["C06", "C09"], "copy": cj.get("copy")}
+            if not muts.get(fld):
+                res.add(key, DISCHARGED, where, what, "the pointee is never modified through this member: sharing it between copies is harmless", extra=extra)
+            elif cj.get("copy") in ("deleted", "user") and cj.get("copy_assign", "memberwise") in ("deleted", "user") \
+                    and not _user_copy_shares(prog, nm, fld):
+                res.add(key, DISCHARGED, where, what, "copy construction is %s and copy assignment is %s; neither hands the pointer itself to the copy" % (
+                    "deleted" if cj.get("copy") == "deleted" else "user-provided",
+                    "deleted" if cj.get("copy_assign") == "deleted" else "user-provided"), extra=extra)
+            else:
+                (f, n, why) = sorted(muts[fld], key=lambda t: (t[0].file, t[1].line))[0]
+                res.add(key, VIOLATED, "%s:%d" % (prog.rel(f.file), n.line), what,
+                        "%s %s (%s), and copying a %s (copy construction: %s, copy assignment: %s) copies the pointer only: the "
+                        "copy and the original share that state"
+                        % (f.short, why, n.text()[:70], nm.rsplit("::", 1)[-1], cj.get("copy"), cj.get("copy_assign")), func=f.name, extra=extra,
+                        path=["%s:%d %s" % (prog.rel(g.file), m.line, m.text()[:80]) for (g, m, _) in muts[fld][:6]])
+    res.stats["classes_with_shared_ptr_member"] = n_cls
+    if not n_cls and not fixture:
+        res.broken.append("anchor vanished: no class with a std::shared_ptr member")
+    return res
